@@ -25,6 +25,13 @@ def streams(proto):
     return [f1, f2, f3]
 
 
+def _retype(proto, frame):
+    """(type, payload) of a console frame built by C.from_console, to rebuild it with another packet id."""
+    body = frame[2:] if proto == "at4" else frame[14:]
+    n = (body[4] << 8) | body[5]
+    return body[3], body[6:6 + n]
+
+
 def script_for(proto, frames, cuts, rng):
     stream = [b for f in frames for b in f]
     b = G.Builder(proto, rng)
@@ -78,8 +85,25 @@ def check(rep):
             for cs in cutsets:
                 sc, meta = script_for(proto, frames, cs, rng)
                 scripts.append((f"seg-{proto}-{len(frames)}-{len(scripts)}", proto, sc, meta))
+    # many frames in one segment: bursts of 8..40 frames delivered whole, in two or three segments (cuts
+    # anywhere, also inside length fields and check bytes), and with a blocking-free subscriber that takes
+    # several loop turns per message
+    n_burst = 0
+    for proto in ("at4", "at5"):
+        base = streams(proto)
+        for nfr in ([12, 16, 40] if q else [8, 11, 12, 16, 24, 40, 64]):
+            frames = []
+            for i in range(nfr):
+                f = list(base[i % 3])
+                frames.append(C.from_console(proto, *_retype(proto, f), pid=(17 * i + 3) % 256))
+            n = sum(len(f) for f in frames)
+            for cs in [(), (n // 2,), (len(frames[0]) + 7, n - 1), tuple(sorted(rng.sample(range(1, n), 3)))]:
+                sc, meta = script_for(proto, frames, cs, rng)
+                scripts.append((f"burst-{proto}-{nfr}-{len(scripts)}", proto, sc, meta))
+                n_burst += 1
     verdicts, metas = PS.run_batch(rep, scripts)
     PS.judge(rep, verdicts, metas)
+    rep.part("bursts of 8..64 frames in one, two or three segments", scripts=n_burst)
     rep.part("segmentations of 1..3-frame streams, both generations", scripts=len(scripts),
              cut_sets_in_scope=total_space, exhaustive_up_to_cuts=("2 (3 for the short streams)"),
              sampled=q)
